@@ -584,6 +584,8 @@ func c15(w *core.World, r *core.Report) {
 			r.Check(ok, "OPERANDS", core.Site(run, "OVERRULED compares ruling intent with lower intent"), w.InstrPos(eq), "operands must be the normalised values of the ruling and of the lower-precedence intent (not the running value)")
 		}
 	}
+	ruleEqualLeaflist(w, r)
+
 	// ruling = lowest priority: the sort comparator orders by Priority ascending
 	r.Rule("RULING-FIRST", 1, "the intents of a path are sorted by ascending priority (ties by timestamp) before element [0] is treated as the ruling one.")
 	for _, a := range run.AnonFuncs {
